@@ -2,6 +2,7 @@ package main
 
 import (
 	"fmt"
+	"go/token"
 	"strings"
 
 	"golang.org/x/tools/go/callgraph"
@@ -28,6 +29,9 @@ func init() {
 				c03DeliverOAE(c, id, oi)
 				gateOAE(c, id, oi)
 			}},
+			{ID: "C13.R9", Text: "background waits are cancellable: the health checker blocks only in selects with a ctx.Done() case (same rule as C19.R2)", Run: c19r2},
+			{ID: "C13.R10", Text: "a cancel signal closes with closeWithCancel=true: the flag is raised in the branch of the wait that received the signal, before the close path runs, and is what Stream.Close receives", Run: c13r10},
+			{ID: "C13.R8", Text: "closeAllStreams closes every assigned vBucket: the serial branch iterates vbIDRange.Start..End inclusive, the parallel branch ranges over every tracked position", Run: closeAllRange},
 			{ID: "C13.R6", Text: "final save precedes the close under automatic checkpointing (same rule as C05.R6) and is serialised by a blocking lock (C05.R7)", Run: func(c *Ctx, id string) { c05r6(c, id); c05r7(c, id) }},
 		},
 	})
@@ -35,9 +39,26 @@ func init() {
 
 // mustPrecede: every entry→b path executes a, except through configuration switches.
 func mustPrecede(w *World, fn *ssa.Function, a func(ssa.Instruction) bool, b ssa.Instruction) bool {
+	// a configuration switch may skip A: the edge of a config test that A itself is control-dependent on, taken the other way
+	skip := map[*ssa.If]int{}
+	allInstrs(fn, func(in ssa.Instruction) {
+		if !a(in) {
+			return
+		}
+		for _, g := range guardsOf(in.Block()) {
+			v, _ := stripNot(g.Cond, true)
+			if strings.Contains(w.Origin(v), ".config.") {
+				if g.Branch {
+					skip[g.If] = 1
+				} else {
+					skip[g.If] = 0
+				}
+			}
+		}
+	})
 	return !existsEntryPathAvoidingEdges(fn, b, a, func(ifi *ssa.If, succ int) bool {
-		v, _ := stripNot(ifi.Cond, true)
-		return strings.Contains(w.Origin(v), ".config.")
+		k, ok := skip[ifi]
+		return ok && k == succ
 	})
 }
 
@@ -474,5 +495,157 @@ func c13r5(c *Ctx, id string) {
 	}
 	if n < 4 {
 		c.Undecided(id, "floor", 0, "only %d uses of observers on lifecycle paths found", n)
+	}
+}
+
+// closeAllRange: both branches of the function that closes the streams cover every assigned vBucket.
+func closeAllRange(c *Ctx, id string) {
+	w := c.W
+	n := 0
+	for _, fn := range w.ModFuncs {
+		if fn.Parent() != nil || !closesStreams(w, fn) || fn.Signature.Recv() == nil || recvTypeName(fn.Signature.Recv().Type()) != "stream" {
+			continue
+		}
+		// only the function that contains the calls itself or in its direct closures
+		direct := false
+		for _, f := range withAnon(fn) {
+			allInstrs(f, func(in ssa.Instruction) {
+				if cc := callOf(in); cc != nil && isInvokeOf(cc, "Client", "CloseStream") {
+					direct = true
+				}
+			})
+		}
+		if !direct {
+			continue
+		}
+		c.see(fn)
+		for _, f := range withAnon(fn) {
+			allInstrs(f, func(in ssa.Instruction) {
+				cc := callOf(in)
+				if cc == nil || !isInvokeOf(cc, "Client", "CloseStream") {
+					return
+				}
+				n++
+				arg := cc.Args[0]
+				ao := w.Origin(arg)
+				if f != fn {
+					// parallel branch: the closure is spawned per entry of a Range over the tracked positions
+					ok := strings.HasPrefix(ao, "param(")
+					var rng bool
+					allInstrs(fn, func(x ssa.Instruction) {
+						if c2 := callOf(x); c2 != nil {
+							if m, recv := csmapMethod(c2); m == "Range" && w.isOffsetMap(recv.Type()) && len(guardsOf(x.Block())) <= 1 {
+								rng = true
+							}
+						}
+					})
+					c.Check(ok && rng, id, "close-range:parallel@"+fname(fn), in.Pos(), "one CloseStream per tracked position", "the parallel close does not cover every tracked position")
+					return
+				}
+				// serial branch: induction from Start, guard <= End
+				phi, isPhi := unwrap(arg).(*ssa.Phi)
+				okInit, okStep := false, false
+				if isPhi {
+					for _, e := range phi.Edges {
+						if strings.HasSuffix(w.Origin(e), ".vbIDRange.Start") {
+							okInit = true
+						}
+						if b, ok := e.(*ssa.BinOp); ok && b.Op == token.ADD && b.X == ssa.Value(phi) && w.Origin(b.Y) == "const(1)" {
+							okStep = true
+						}
+					}
+				}
+				okBound := guardedBy(in.Block(), true, func(v ssa.Value) bool {
+					b, ok := v.(*ssa.BinOp)
+					if !ok {
+						return false
+					}
+					x, y := w.Origin(b.X), w.Origin(b.Y)
+					return (b.Op == token.LEQ && b.X == ssa.Value(phi) && strings.HasSuffix(y, ".vbIDRange.End")) || (b.Op == token.GEQ && b.Y == ssa.Value(phi) && strings.HasSuffix(x, ".vbIDRange.End"))
+				})
+				c.Check(okInit && okStep && okBound, id, "close-range:serial@"+fname(fn), in.Pos(), "closes vbID = Start, Start+1, … while vbID ≤ End (End inclusive, as In and Open define it)",
+					fmt.Sprintf("the serial close loop does not run from Start to End inclusive (from Start: %v, step 1: %v, while ≤ End: %v): the last assigned vBucket's stream would stay open across a rebalance", okInit, okStep, okBound))
+			})
+		}
+	}
+	if n < 2 {
+		c.Undecided(id, "close-range", 0, "only %d CloseStream call sites found in the stream-closing function", n)
+	}
+}
+
+func c13r10(c *Ctx, id string) {
+	w := c.W
+	var start *ssa.Function
+	for _, fn := range w.ModFuncs {
+		if fname(fn) == "(*dcp.dcp).Start" {
+			start = fn
+		}
+	}
+	c.need(start != nil, id, "(*dcp.dcp).Start")
+	c.see(start)
+	var sel *ssa.Select
+	allInstrs(start, func(in ssa.Instruction) {
+		if s, ok := in.(*ssa.Select); ok {
+			sel = s
+		}
+	})
+	if sel == nil {
+		c.Fail(id, "wait", start.Pos(), "Start does not wait for a stop or cancel signal in a select")
+		return
+	}
+	cancelIdx := -1
+	for i, st := range sel.States {
+		if strings.HasSuffix(w.Origin(st.Chan), ".cancelCh") {
+			cancelIdx = i
+		}
+	}
+	if cancelIdx < 0 {
+		c.Fail(id, "wait", sel.Pos(), "the wait does not listen on the cancel channel")
+		return
+	}
+	// the close call
+	var closeCall ssa.Instruction
+	allInstrs(start, func(in ssa.Instruction) {
+		if cc := callOf(in); cc != nil && cc.StaticCallee() != nil && cc.StaticCallee().Name() == "close" && w.inModule(cc.StaticCallee()) {
+			closeCall = in
+		}
+	})
+	// store closeWithCancel ← true in the cancel branch
+	ok := false
+	allInstrs(start, func(in ssa.Instruction) {
+		st, isSt := in.(*ssa.Store)
+		if !isSt || !strings.HasSuffix(w.Origin(st.Addr), ".closeWithCancel") || w.Origin(st.Val) != "const(true)" {
+			return
+		}
+		inBranch := false
+		for _, g := range guardsOf(in.Block()) {
+			b, isB := g.Cond.(*ssa.BinOp)
+			if !isB || b.Op != token.EQL {
+				continue
+			}
+			ex, isEx := b.X.(*ssa.Extract)
+			if !isEx || ex.Tuple != ssa.Value(sel) || ex.Index != 0 {
+				continue
+			}
+			k := w.Origin(b.Y)
+			if (g.Branch && k == fmt.Sprintf("const(%d)", cancelIdx)) || (!g.Branch && len(sel.States) == 2 && k == fmt.Sprintf("const(%d)", 1-cancelIdx)) {
+				inBranch = true
+			}
+		}
+		// all paths from the store reach the close call
+		reaches := closeCall != nil && !existsPathAvoiding(in, func(x ssa.Instruction) bool { return x == closeCall }, true)
+		if inBranch && reaches {
+			ok = true
+		}
+	})
+	c.Check(ok, id, "cancel-flag@"+fname(start), sel.Pos(), "the cancel branch raises closeWithCancel before closing", "a cancel signal (SIGTERM) does not raise closeWithCancel before the close path runs: stream ends during shutdown would be reopened")
+	// no other writer raises it; Stream.Close receives the field
+	for _, fn := range w.ModFuncs {
+		allInstrs(fn, func(in ssa.Instruction) {
+			if cc := callOf(in); cc != nil && isInvokeOf(cc, "Stream", "Close") && rootFn(fn).Pkg != nil && rootFn(fn).Pkg.Pkg.Path() == modPath {
+				got := w.Origin(cc.Args[0])
+				c.Check(strings.HasSuffix(got, ".closeWithCancel"), id, "cancel-arg@"+fname(fn), in.Pos(), "Stream.Close("+got+")", "Stream.Close receives "+got+" instead of the cancel flag")
+			}
+		})
 	}
 }
